@@ -277,6 +277,9 @@ fn gen(r: &mut Rng, idx: u64) -> Scenario {
             for row in rows {
                 setup.push(Stmt::Insert { t: src, cols_ok: true, rows: vec![row] });
             }
+            // the bulk-transfer path is only taken when the destination table has no INSERT trigger (any timing,
+            // granularity, enabled or not)
+            let bulk = bulk && !trigs.iter().any(|t| t.table == 0 && matches!(t.event, Ev::Insert));
             let kind = if bulk { "insert-select-bulk" } else { "insert-select" };
             // the normal path inserts the SELECT's result, which the executor sorts (implicit ordering): the planted
             // row's position is its rank among the source keys
